@@ -24,7 +24,11 @@ import (
 func VfLockE2E() {
 	versioning := zzvf.Choice("versioning_dir", 2) == 1
 	protection := zzvf.Choice("protection", 3)
-	be, vid, uploadID := posix.VfLockWorld(versioning, protection)
+	history := 0
+	if versioning {
+		history = zzvf.Choice("later_history", 3) // 0 none, 1 a newer version on top, 2 a newer version and a delete marker on top
+	}
+	be, vid, uploadID := posix.VfLockWorld(versioning, protection, history)
 	c := controllers.New(be, nil, nil, nil, nil, false, false)
 	ctx := zzvfbe.NewRequest()
 	r := zzvfbe.R
